@@ -166,6 +166,7 @@ func TestC10(t *testing.T) {
 			dcs = append(dcs, dcase{Builder: "sharded", Fanout: f, Family: "hexprefix", N: 500}, dcase{Builder: "sharded", Fanout: f, Family: "crafted-deep", N: 5}, dcase{Builder: "sharded", Fanout: f, Family: "ascii", N: 5000})
 		}
 	}
+	dcs = append(dcs, dcase{Builder: "sharded", Fanout: 16, Family: "collide64", N: 3}, dcase{Builder: "sharded", Fanout: 256, Family: "collide64", N: 2}, dcase{Builder: "sharded", Fanout: 8, Family: "collide64", N: 4})
 	dcs = append(dcs, dcase{Builder: "sharded", Fanout: 16, Family: "crafted-deep", N: 4}, dcase{Builder: "sharded", Fanout: 8, Family: "crafted-deep", N: 5})
 	// the sharded builder accepts any registered hasher; the result must still be a function of the input
 	for _, h := range []uint64{multihash.SHA2_256, multihash.SHA2_512, multihash.SHA3_256, multihash.BLAKE2B_MIN + 31} {
@@ -209,6 +210,10 @@ func TestC10(t *testing.T) {
 				c.Count("alias_pairs", int64(len(names)-20)/2)
 			case "crafted-deep":
 				names = gen.SharedPrefixNames(rr, d.N, 24)
+			case "collide64":
+				// distinct names with one and the same 64-bit digest, among ordinary names: no HAMT can hold
+				// them, so every order must fail alike (or, if a build ever succeeds, succeed alike)
+				names = append(gen.CollidingNames(rr, d.N), gen.Names(rr, gen.FamASCII, 10)...)
 			case "mixedcids-under", "mixedcids-over":
 				// 200-byte names; true estimate 261996 (under) or 262232 (over the 262144 threshold)
 				for i := 0; i < d.N; i++ {
